@@ -274,3 +274,39 @@ func VH_C17_batch() {
 		}
 	})
 }
+
+// a batch whose (any-style) prep returns ONE value that is not a list is a batch of that one item:
+// the item handed to exec and to post is the value prep returned, as it is (a pointer stays that
+// pointer, a map that map)
+func VH_C17_batchSingle() {
+	v := vPayload("single")
+	if v == nil {
+		return // a nil prep value is an empty batch (C18/C06)
+	}
+	pp := &v // a pointer to an interface variable is an ordinary value too
+	if vNondet[bool]("pointerToInterface") {
+		vCover("single-item-pointer-to-interface")
+		v = pp
+	}
+	execs := 0
+	posted := false
+	b := NewBatchNode(
+		WithPrepFuncAny(func(ctx context.Context, s *SharedStore) (any, error) { return v, nil }),
+		WithExecFuncAny(func(ctx context.Context, it any) (any, error) {
+			execs++
+			vAssert(vSame(it, v), "single-item-batch-exec-receives-the-prep-value")
+			return it, nil
+		}))
+	b.WithPostFunc(func(ctx context.Context, s *SharedStore, items, results []Result) (Action, error) {
+		posted = true
+		vAssert(len(items) == 1 && len(results) == 1, "single-item-batch-has-one-item")
+		if len(items) == 1 && len(results) == 1 {
+			vAssert(vSame(items[0].Value(), v), "single-item-batch-post-sees-the-prep-value")
+			vAssert(vSame(results[0].Value(), v), "single-item-batch-post-sees-the-exec-value")
+		}
+		return "done", nil
+	})
+	_, err := Run(vNewCtx(), b, NewSharedStore())
+	vAssert(err == nil && posted && execs == 1, "single-item-batch-runs-once")
+	vCover("single-item-batch")
+}
